@@ -22,6 +22,10 @@ func init() {
 		if err != nil {
 			return []string{peOK, "err"}
 		}
+		// other objects come and go between parsing this image and using it: the image the
+		// worker saw before is parsed, hashed and signed again now
+		otherObjects()
+		rememberImage(img)
 		pre, perr := p.VerifHashContent()
 		h := p.Hash(crypto.SHA256)
 		preS := "nil"
@@ -39,6 +43,30 @@ func init() {
 	checkers["C01"] = checker{
 		rule: "synthetic PE32 / PE32+ images built by an independent encoder from a layout description (e_lfanew 64..512 aligned or not, 5..16 data directories, 0..12 sections in permuted file order incl. zero-size sections pointing anywhere, optional gaps, header slack, 0..300 trailing bytes, length mod 8 in 0..7, optional certificate table of 1..3 entries) plus the repository's PE fixtures; per image k single-byte changes drawn from every region class (DOS header, e_lfanew, COFF header, optional header before/after the checksum, checksum, certificate directory entry, other directories, section table, slack, sections, trailing data, certificate table); the implementation reports acceptance, the hash pre-image (verif hook; Hash()=SHA-256(pre-image) is checked on the Go side) and Bytes(); R_C01 (extracted) requires, for every image satisfying wf_image, acceptance and pre-image = spec_content, and for flip pairs of well-formed images that the digest changes iff the position is covered; non-trivial = wf_image holds and the image has at least two non-empty sections or trailing data; distinct by image hash",
 		run:  runC01,
+	}
+}
+
+// the image of an earlier worker call: parsing, hashing, serialising and signing it again must
+// not disturb any other object
+var earlierImage []byte
+
+func rememberImage(img []byte) {
+	if len(img) < 20000 {
+		earlierImage = append([]byte{}, img...)
+	}
+}
+
+func otherObjects() {
+	if earlierImage == nil {
+		return
+	}
+	if q, err := authenticode.Parse(bytes.NewReader(earlierImage)); err == nil {
+		q.Hash(crypto.SHA256)
+		q.Bytes()
+		q.Signatures()
+		k := rsaKey(2048, 3)
+		q.Sign(k, simpleCert(k, "attacker", 666))
+		q.Bytes()
 	}
 }
 
